@@ -51,15 +51,16 @@ theorem c04_same_name_ignored (c : Ca.Ca) (a : Nat) (data : List Nat)
   unfold processAddressClaim
   split <;> simp [heq]
 
-/-- LOSER BEHAVIOUR: against a lower NAME a single-address CA goes cannot-claim and says so from the null address 254;
-    an arbitrary-address-capable CA announces the next address and waits for a veto there; in both cases it no longer
-    holds (or reports) the contested address -/
+/-- LOSER BEHAVIOUR: against a lower NAME a single-address CA — and an arbitrary-address-capable one that has no
+    address left to try (announced ≥ 253; repair of D28) — goes cannot-claim and says so from the null address 254; an
+    arbitrary-address-capable CA with room left announces the next address and waits for a veto there; in all cases it no
+    longer holds (or reports) the contested address -/
 theorem c04_loser (c : Ca.Ca) (a : Nat) (data : List Nat) (hat : At c a)
     (hhigh : Name.value (Name.ofBytes data) < Name.value c.name) :
-    (c.name.arbitrary_address_capable = 0 →
+    ((c.name.arbitrary_address_capable = 0 ∨ 253 ≤ c.announced) →
         (processAddressClaim c a data).1.state = CANNOT_CLAIM ∧ (processAddressClaim c a data).1.addr = none ∧
         (processAddressClaim c a data).2 = [claimFrame c 254]) ∧
-    (c.name.arbitrary_address_capable ≠ 0 →
+    ((c.name.arbitrary_address_capable ≠ 0 ∧ c.announced < 253) →
         (processAddressClaim c a data).1.state = WAIT_VETO ∧ (processAddressClaim c a data).1.announced = c.announced + 1 ∧
         (processAddressClaim c a data).1.addr = some 254 ∧
         (processAddressClaim c a data).2 = [claimFrame (processAddressClaim c a data).1 (c.announced + 1)]) ∧
@@ -72,15 +73,26 @@ theorem c04_loser (c : Ca.Ca) (a : Nat) (data : List Nat) (hat : At c a)
   unfold processAddressClaim
   simp only [hcond, if_true, hne, Bool.false_eq_true, if_false, hhigh]
   refine ⟨?_, ?_, ?_⟩
-  · intro h0; simp [h0]
-  · intro h1
-    have : (c.name.arbitrary_address_capable == 0) = false := by simpa using h1
+  · intro h0
+    have : (c.name.arbitrary_address_capable == 0 || decide (c.announced ≥ 253)) = true := by
+      rcases h0 with h0 | h0
+      · simp [h0]
+      · simp [h0]
     simp [this]
-  · by_cases h0 : c.name.arbitrary_address_capable = 0
-    · simp only [h0, beq_self_eq_true, if_true, deviceAddress]
+  · intro h1
+    have : (c.name.arbitrary_address_capable == 0 || decide (c.announced ≥ 253)) = false := by
+      have e1 : (c.name.arbitrary_address_capable == 0) = false := by simpa using h1.1
+      have e2 : decide (c.announced ≥ 253) = false := by simp; omega
+      rw [e1, e2]; rfl
+    simp [this]
+  · by_cases h0 : (c.name.arbitrary_address_capable == 0 || decide (c.announced ≥ 253)) = true
+    · simp only [h0, if_true, deviceAddress]
       have : (CANNOT_CLAIM != NORMAL) = true := by simpa using hd.2.2.1
       simp [this]
-    · have : (c.name.arbitrary_address_capable == 0) = false := by simpa using h0
+    · have : (c.name.arbitrary_address_capable == 0 || decide (c.announced ≥ 253)) = false := by
+        cases h : (c.name.arbitrary_address_capable == 0 || decide (c.announced ≥ 253)) with
+        | false => rfl
+        | true => exact absurd h h0
       simp only [this, Bool.false_eq_true, if_false, deviceAddress]
       have : (WAIT_VETO != NORMAL) = true := by simpa using hd.2.1
       simp [this]
